@@ -5,6 +5,8 @@ import XmppModel.Lemmas.StartTLSFuel
 import XmppModel.Lemmas.StartTLSName
 import XmppModel.Lemmas.ByteDecoder
 import XmppModel.Lemmas.StartTLSRechunk
+import XmppModel.Model.StartTLSProbe
+import XmppModel.Lemmas.StartTLSNegotiate
 import XmppModel.Generated.C02
 /-!
 # C02 — a client asked to use STARTTLS never proceeds in clear text
@@ -36,22 +38,92 @@ theorem C02_gen_starttls_masks :
     Generated.C02.startTLSNegotiable = some startTLS.negotiable := by
   decide
 
-/-- starttls.go does not assign to the configuration captured by the feature value (the model's
-`negotiateName` returns the captured value unchanged) -/
-theorem C02_gen_config_not_assigned : Generated.C02.startTLSAssignsCapturedConfig = some false := by
+/-! #### Probe tables: the real functions, run over complete finite domains
+
+`harness facts C02` executes the real code on every point of a finite domain and emits the table;
+the theorems say that the table is *exactly* the model's function mapped over the same domain
+(so the domain is complete and every entry agrees).  They do not depend on how the Go source is
+written — helpers, `switch` or `if`, names — only on what it does. -/
+
+/-- **session.go `negotiateSession`, what a session starts with**: for every kind of connection
+(`net.Conn`, plain `io.ReadWriter`, clear-text wrapper with a `ConnectionState()` method,
+`*tls.Conn`) and the initial states 0, `Secure`, `Authn`, `S2S`, the `SessionState` the real
+negotiator sees at its first call is the model's `init` — `Secure` is added exactly on a
+`*tls.Conn`, never on a clear-text wrapper that merely has the method. -/
+theorem C02_gen_start_state_table :
+    Generated.C02.startStateProbe = some (startStateDomain.map fun i => (i, startStateModel i)) := by
+  decide +kernel
+
+set_option synthInstance.maxSize 1024 in
+/-- **negotiator.go + features.go, the first features list**: for every tee variant (off, TeeIn,
+TeeOut, both), every clear connection kind, the first list empty / naming only an unknown
+feature / STARTTLS optional / STARTTLS required, and a peer that then stays silent or says
+`<proceed/>` and continues inside TLS, the observable trace and the outcome of the real
+`NewSession` are the model's `run` (with the three features.go behaviours C02 does not constrain
+as measured).  In particular the RFC 7590 attempt is made on the first list whether or not the
+tee step came first, and never again after the switch. -/
+theorem C02_gen_first_list_table :
+    ∃ rr rt sk, Generated.C02.featuresFlags = some (rr, rt, sk) ∧
+      Generated.C02.firstListProbe = some (firstListDomain.map fun i => (i, firstListModel rr rt sk i)) := by
+  refine ⟨_, _, _, rfl, ?_⟩
+  decide +kernel
+
+/-- **starttls.go `Negotiate`, called directly**: for the default and an explicit configuration and
+every kind of answer of the peer (end of input, `<proceed/>`, `<failure/>`, a stream error,
+another element of the TLS namespace, a foreign element, white space, bytes that are not XML, a
+stream header, a features list) what the real function wrote and returned — mask, kind of new
+`io.ReadWriter`, error class — is the model's `negotiateOne`: only `<proceed/>` yields a layer,
+and then `Secure` and a `*tls.Conn` and nothing else. -/
+theorem C02_gen_negotiate_table :
+    Generated.C02.negotiateProbe = some (negotiateDomain.map fun i => (i, negotiateModel i)) := by
+  decide +kernel
+
+/-- **starttls.go, one feature value, many sessions**: for the default and an explicit
+configuration and every history of one or two sessions out of five shapes (own and remote domain
+different, c2s and s2s, STARTTLS advertised / forced / refused / never reached) negotiated with ONE
+`StartTLS` value, the server names in the real ClientHellos are the model's `sessions` — the
+closure variable is never changed (`negotiateName` returns it as it was). -/
+theorem C02_gen_server_name_table :
+    Generated.C02.serverNameProbe = some (serverNameDomain.map fun i => (i, serverNameModel i)) := by
+  decide +kernel
+
+/-- starttls.go: the code reached from `StartTLS` writes no state shared by the sessions that use
+one feature value — no variable captured by the `Negotiate`/`List`/`Parse` closures (the
+configuration), no package-level variable, no field of an object built with the value -/
+theorem C02_gen_starttls_value_writes_nothing : Generated.C02.startTLSSharedWrites = some [] := by
   decide
 
-/-- negotiator.go does not derive the first-features-list flag from the opaque `data` argument
-(which is already non-nil after the tee step) -/
-theorem C02_gen_first_flag_not_from_data : Generated.C02.firstFlagFromData = some false := by
-  decide
+/-! ### One `Negotiate` call of the STARTTLS feature, from every state
 
-/-- session.go `negotiateSession`: the test that sets `Secure` before any negotiation is a type
-assertion to `*tls.Conn` — not to an interface (such as "has a `ConnectionState()` method") that
-a clear-text wrapper can satisfy.  The model's `ConnKind.startsSecure` is that test. -/
-theorem C02_gen_initial_secure_is_tls_conn_assertion :
-    Generated.C02.initialSecureAssertsTLSConn = some true := by
-  decide
+(`C02_gen_negotiate_table` ties `negotiateOne` to the real function on eleven answers from the
+initial state; these hold for every session state, read-ahead, script and configuration.) -/
+
+/-- **A layer only on `<proceed/>`, and then `Secure` and nothing else.**  If the call returns
+without an error, the request was written, the next unit the peer sent was `<proceed/>`, the mask is
+exactly `Secure` — not `Ready`: a session is never done before the stream has been restarted
+inside the layer — and the new `io.ReadWriter` is a TLS client. -/
+theorem C02_negotiate_layer_only_on_proceed (req : Bool) (res : NegRes) (s s' : Sess) (m : Mask) (rw : Rw)
+    (h : negotiateOne ⟨0, req, startTLS⟩ res s = .ok (m, rw) s') :
+    m = Secure ∧ rw = .tls ∧
+    ∃ s1, write .wStartTLS (chooseConfig s) = .ok () s1 ∧ pull s1 = .ok .proceed s' := by
+  obtain ⟨hm, hr, s1, s2, hw, hp, rfl⟩ := negotiateOne_starttls_ok h
+  exact ⟨hm, hr, s1, hw, hp⟩
+
+/-- **In clear text the call writes the request and nothing else**, whatever the peer answers and
+however the call ends (result or error): the trace grows by the request, written outside any
+layer, and at most one delivery after it. -/
+theorem C02_negotiate_clear_writes_only_request (req : Bool) (res : NegRes) (s : Sess) (ht : s.tls = false) :
+    match negotiateOne ⟨0, req, startTLS⟩ res s with
+    | .ok _ s' | .stop _ s' =>
+      s'.trace = .wStartTLS false :: s.trace ∨
+      ∃ o, s'.trace = .deliver o false :: .wStartTLS false :: s.trace :=
+  negotiateOne_starttls_clear_trace ht
+
+/-- both happen: `<proceed/>` gives (`Secure`, TLS client) after one write; `<failure/>` an error
+after the same write -/
+example : negotiateModel (false, some .proceed) = ([.wStartTLS false], .ok 1 .tls) ∧
+    negotiateModel (true, some .failure) = ([.wStartTLS false], .err .refused) := by
+  decide +kernel
 
 /-! ### What makes a session start `Secure`: the kind of connection -/
 
@@ -280,10 +352,11 @@ theorem C02_features_cache_is_current_stream (cfg : Cfg) (env : Env) (st0 : Mask
     ∀ x ∈ featuresAfter cfg env st0 i fuel, x.2 = true :=
   run_features cfg env st0 i fuel ht
 
-/-- negotiator.go: the closure returned by `negotiator` (what `NewNegotiator` hands out, shared by
-every session negotiated with it) assigns to no variable of the enclosing function: the
-first-features-list flag, the tee handle and the stream config live in the per-session
-`negotiatorState` -/
+/-- negotiator.go: the code reached from `NewNegotiator` (helpers followed two levels, closures and
+method values included) writes no state shared by the sessions negotiated with one value — no
+variable captured by the returned closure, no package-level variable, no field of an object built
+with the value: the first-features-list flag, the tee handle and the stream config live in the
+per-session `negotiatorState` -/
 theorem C02_gen_negotiator_closure_writes_nothing : Generated.C02.negotiatorSharedWrites = some [] := by
   decide
 
